@@ -34,49 +34,66 @@ static int probe_other(struct emu *emu)
 	return r;
 }
 
-int w_registered_k, w_has_probe_k, w_enable_all;
-WITNESS(model_probe);
-
-int c_model_probe(struct model *model, struct emu *emu)
-__CPROVER_requires(g_k >= 0 && g_k < MAX_MODELS && g_calls_k == 0 && g_any_neg == 0)
-__CPROVER_requires(model->enabled[g_k] == 0)
-__CPROVER_requires(DIAG_PRE)
-__CPROVER_requires(WBIND(model_probe, w_registered_k == (model->registered[g_k] != 0) &&
-	w_has_probe_k == (model->spec[g_k]->probe != NULL) && w_enable_all == (emu->args.enable_all_models != 0)))
-__CPROVER_assigns(__CPROVER_object_upto(model->enabled, sizeof(model->enabled)), DIAG_FRAME, g_ret_k, g_calls_k, g_any_neg)
-__CPROVER_ensures(__CPROVER_return_value == 0 || __CPROVER_return_value == -1)
-__CPROVER_ensures((__CPROVER_return_value == -1) == (g_any_neg != 0))
-__CPROVER_ensures(__CPROVER_return_value != 0 || (model->enabled[g_k] != 0) == (
-	model->registered[g_k] != 0 && model->spec[g_k]->probe != NULL &&
-	(g_ret_k > 0 || emu->args.enable_all_models != 0)))
-/* the probe of a registered model is consulted exactly once, of others never */
-__CPROVER_ensures(__CPROVER_return_value != 0 ||
-	g_calls_k == ((model->registered[g_k] != 0 && model->spec[g_k]->probe != NULL) ? 1u : 0u))
-__CPROVER_ensures(__CPROVER_return_value == 0 || g_err > __CPROVER_old(g_err))
-;
-
-static struct model h_model;
-static struct model_spec h_specs[MAX_MODELS];
-static struct model_evspec h_evspec;
-static struct emu h_emu;
-
+/* No DFCC in this group ("no_dfcc" in the plan): with the contract instrumentation the
+ * complete unwinding of the two 256-iteration loops needs > 5 min of symbolic execution,
+ * and a loop contract needs a quantified invariant (enabled[j] => registered[j] for all
+ * j, for the memory safety of the second loop).  The harness builds the state
+ * model_init + model_register leave, for ALL slots, calls the real function, and
+ * asserts the contract; the frame is asserted for the observed slot and for emu->args. */
 void h_model_probe(void)
 {
-	WITNESS_ON(model_probe);
+	static struct model model;
+	static struct model_spec specs[MAX_MODELS];
+	static struct model_evspec evspec;
+	static struct emu emu;
 	emu_hook_t *pk = probe_k, *po = probe_other;   /* candidate targets of spec->probe */
+
+	int k = nondet_int();
+	__CPROVER_assume(k >= 0 && k < MAX_MODELS);    /* the observed slot: any */
+	g_k = k;
+	g_calls_k = 0;
+	g_any_neg = 0;
+	g_err = nondet_int() & 0xfffff;
+	g_diag = g_err;
+	g_warn = 0;
 	for (int i = 0; i < MAX_MODELS; i++) {
-		h_model.enabled[i] = 0;                 /* model_init */
-		h_model.spec[i] = &h_specs[i];          /* model_register (spec[i] is only read if registered[i]) */
-		h_specs[i].evspec = &h_evspec;
-		h_specs[i].probe = nondet_bool() ? NULL : (i == g_k ? pk : po);
+		int reg = nondet_bool();
+		model.registered[i] = reg;
+		model.enabled[i] = 0;                          /* model_init */
+		model.spec[i] = reg ? &specs[i] : NULL;        /* model_register */
+		specs[i].evspec = &evspec;
+		specs[i].probe = nondet_bool() ? NULL : (i == k ? pk : po);
 	}
-	int r = model_probe(&h_model, &h_emu);
-	if (r == 0 && h_model.enabled[g_k]) REACH("model enabled");
-	if (r == 0 && h_model.enabled[g_k] && g_ret_k == 0) REACH("model enabled by enable_all although its probe answered 0");
-	if (r == 0 && !h_model.enabled[g_k] && w_registered_k && w_has_probe_k) REACH("registered model not enabled: probe answered 0");
-	if (r == 0 && !w_registered_k) REACH("unregistered model stays disabled");
+	emu.args.enable_all_models = nondet_int();
+	evspec.nevents = nondet_long();
+
+	int registered_k = model.registered[k];
+	int has_probe_k = registered_k && specs[k].probe != NULL;
+	int enable_all = emu.args.enable_all_models;
+	unsigned err0 = g_err;
+
+	int r = model_probe(&model, &emu);
+
+	VASSERT(r == 0 || r == -1, "model_probe returns 0 or -1");
+	VASSERT((r == -1) == (g_any_neg != 0), "model_probe fails exactly when a probe it called answered < 0");
+	VASSERT(r != 0 || (model.enabled[k] != 0) == (registered_k && has_probe_k && (g_ret_k > 0 || enable_all != 0)),
+		"enabled[k] <=> registered and has a probe and (probe answered > 0 or enable_all_models)");
+	VASSERT(r != 0 || g_calls_k == (has_probe_k ? 1u : 0u),
+		"the probe of a registered model is consulted exactly once, of an unregistered one never");
+	VASSERT(r == 0 || g_err > err0, "a failure comes with a diagnostic");
+	/* frame, observed slot and arguments */
+	VASSERT(model.registered[k] == registered_k && model.spec[k] == (registered_k ? &specs[k] : NULL) &&
+		emu.args.enable_all_models == enable_all, "model_probe changes neither registered[], spec[] nor emu->args");
+	VASSERT(model.enabled[k] == 0 || model.enabled[k] == 1, "enabled[k] is 0 or 1");
+
+	if (r == 0 && model.enabled[k]) REACH("model enabled");
+	if (r == 0 && model.enabled[k] && g_ret_k == 0 && has_probe_k) REACH("model enabled by enable_all although its probe answered 0");
+	if (r == 0 && !model.enabled[k] && has_probe_k) REACH("registered model not enabled: probe answered 0");
+	if (r == 0 && !registered_k) REACH("unregistered model stays disabled");
+	if (r == 0 && registered_k && !has_probe_k && enable_all) REACH("model without probe stays disabled even with enable_all");
 	if (r == -1) REACH("a probe failed");
-	if (r == 0 && g_k == 255) REACH("last model slot observed");
+	if (r == 0 && k == 255) REACH("last model slot observed");
+	if (r == 0 && k == 0) REACH("first model slot observed");
 }
 
 /* =====================================================================================
